@@ -285,9 +285,16 @@ func (s *Server) blobUploadPost(repoStr string) http.HandlerFunc {
 		}
 		// handle monolithic upload in the POST
 		if dStr != "" {
-			_, err = io.Copy(bc, r.Body)
+			body := &bodyReader{r: r.Body}
+			_, err = io.Copy(bc, body)
 			if err != nil {
-				w.WriteHeader(http.StatusInternalServerError)
+				if body.err != nil {
+					// the request body could not be read
+					w.WriteHeader(http.StatusBadRequest)
+					_ = types.ErrRespJSON(w, types.ErrInfoBlobUploadInvalid("failed to read request body"))
+				} else {
+					w.WriteHeader(http.StatusInternalServerError)
+				}
 				s.log.Info("failed to copy blob content", "repo", repoStr, "digest", dStr, "err", err)
 				return
 			}
@@ -452,9 +459,16 @@ func (s *Server) blobUploadPatch(repoStr, sessionID string) http.HandlerFunc {
 			return
 		}
 		// write bytes to blob
-		_, err = io.Copy(bc, r.Body)
+		body := &bodyReader{r: r.Body}
+		_, err = io.Copy(bc, body)
 		if err != nil {
-			w.WriteHeader(http.StatusInternalServerError)
+			if body.err != nil {
+				// the request body could not be read, the session keeps what was received
+				w.WriteHeader(http.StatusBadRequest)
+				_ = types.ErrRespJSON(w, types.ErrInfoBlobUploadInvalid("failed to read request body"))
+			} else {
+				w.WriteHeader(http.StatusInternalServerError)
+			}
 			s.log.Error("failed to write blob", "err", err, "repo", repoStr, "sessionID", sessionID)
 			return
 		}
@@ -547,9 +561,16 @@ func (s *Server) blobUploadPut(repoStr, sessionID string) http.HandlerFunc {
 			return
 		}
 		// copy blob content
-		_, err = io.Copy(bc, r.Body)
+		body := &bodyReader{r: r.Body}
+		_, err = io.Copy(bc, body)
 		if err != nil {
-			w.WriteHeader(http.StatusInternalServerError)
+			if body.err != nil {
+				// the request body could not be read, the session keeps what was received
+				w.WriteHeader(http.StatusBadRequest)
+				_ = types.ErrRespJSON(w, types.ErrInfoBlobUploadInvalid("failed to read request body"))
+			} else {
+				w.WriteHeader(http.StatusInternalServerError)
+			}
 			s.log.Error("failed to write blob", "err", err, "repo", repoStr, "sessionID", sessionID)
 			return
 		}
@@ -608,4 +629,19 @@ func blobValidRange(cr string, curSize int64) bool {
 		return false
 	}
 	return true
+}
+
+// bodyReader remembers a failure to read the request body,
+// so that a failed copy can be attributed to the client or to the storage.
+type bodyReader struct {
+	r   io.Reader
+	err error
+}
+
+func (b *bodyReader) Read(p []byte) (int, error) {
+	n, err := b.r.Read(p)
+	if err != nil && !errors.Is(err, io.EOF) {
+		b.err = err
+	}
+	return n, err
 }
